@@ -192,9 +192,23 @@ def evaluate(case, out):
             except Warning:
                 pass
         out.cls("same-set-object-after-an-earlier-stage-under--W-error")
+    WO_own, IRV_own = list(WO), list(IRV)
+    if (len(cands) + len(nen)) % 2 == 1 and (WO_own or IRV_own):
+        # the caller keeps its two lists of assertions and built a first tree when the last assertion was not yet known;
+        # the assertion was then appended to the same list object, which is used for the real tree
+        late_list = IRV_own if IRV_own else WO_own
+        late = late_list.pop()
+        try:
+            with contextlib.redirect_stdout(io.StringIO()):
+                viz.buildRemainingTreeAsLists(root, set(S0), WO_own, IRV_own)
+        except Exception as e:  # noqa
+            out.lib_exception("buildRemainingTreeAsLists(earlier stage)", e)
+            return
+        late_list.append(late)
+        out.cls("assertion-appended-to-the-same-list-after-a-first-tree")
     try:
         with contextlib.redirect_stdout(io.StringIO()):
-            tree = viz.buildRemainingTreeAsLists(root, S_own, list(WO), list(IRV))
+            tree = viz.buildRemainingTreeAsLists(root, S_own, WO_own, IRV_own)
     except Exception as e:  # noqa
         out.lib_exception("buildRemainingTreeAsLists", e)
         return
